@@ -15,6 +15,7 @@ from .symbolic import (
     Variable,
     OperationResult,
     ResultQuantifier,
+    _label_of_,
 )
 
 
@@ -56,7 +57,7 @@ class Conclusion(SymbolicExpression[T], ABC):
         value_str = (
             self.value._type_.__name__
             if isinstance(self.value, Variable)
-            else str(self.value)
+            else _label_of_(self.value)
         )
         return f"{self.__class__.__name__}({self.var._var_._name_}, {value_str})"
 
